@@ -11,6 +11,8 @@ pub struct HistCfg {
     pub cont_max: bool,
     pub set_vars: bool,
     pub stop_at_end: bool,
+    /// knots a path jump may target (None: every knot whose name starts with 'k', i.e. generated flow knots)
+    pub jump_targets: Option<Vec<String>>,
 }
 
 impl Default for HistCfg {
@@ -22,6 +24,7 @@ impl Default for HistCfg {
             cont_max: false,
             set_vars: false,
             stop_at_end: true,
+            jump_targets: None,
         }
     }
 }
@@ -67,9 +70,21 @@ pub fn situation(p: &mut Player) -> String {
 /// Builds a history by playing a fresh control story; returns the ops with the control's observations.
 pub fn gen_history(c: &Compiled, host: &HostCfg, rng: &mut Rng, h: &HistCfg) -> Result<History, String> {
     let mut p = Player::new(c.json.clone(), c.info.clone(), host.clone())?;
+    Ok(gen_history_on(&mut p, c, rng, h))
+}
+
+/// Same, continuing on an existing player (its earlier records are not part of the result).
+pub fn gen_history_on(p: &mut Player, c: &Compiled, rng: &mut Rng, h: &HistCfg) -> History {
+    let first_rec = p.recs.len();
     let mut ops = Vec::new();
     let mut situ = Vec::new();
     let flow_names = ["fa", "fb"];
+    // parameterless flow knots of generated programs: jumping into a knot that expects arguments is a
+    // host error of its own (C04), not part of these histories
+    let jump_targets: Vec<String> = match &h.jump_targets {
+        Some(t) => t.clone(),
+        None => c.info.knots.iter().filter(|k| c.name.starts_with("gen-") && k.starts_with('k') && k.as_str() != "kprobe").cloned().collect(),
+    };
     let mut ended_flows = 0;
     while ops.len() < h.max_ops {
         let can = p.story.can_continue();
@@ -79,9 +94,9 @@ pub fn gen_history(c: &Compiled, host: &HostCfg, rng: &mut Rng, h: &HistCfg) -> 
                 0 => Op::SwitchDefault,
                 k => Op::SwitchFlow(flow_names[k - 1].to_string()),
             }
-        } else if h.jumps && rng.chance(1, 12) && !c.info.knots.is_empty() {
-            let k = rng.pick(&c.info.knots).clone();
-            Op::ChoosePath(k, true)
+        } else if h.jumps && rng.chance(1, 12) && !jump_targets.is_empty() {
+            let k = rng.pick(&jump_targets).clone();
+            Op::ChoosePath(k, rng.chance(3, 4))
         } else if h.set_vars && rng.chance(1, 10) && !c.info.globals.is_empty() {
             // only assign a value of the variable's current type
             let g = rng.pick(&c.info.globals).clone();
@@ -106,7 +121,7 @@ pub fn gen_history(c: &Compiled, host: &HostCfg, rng: &mut Rng, h: &HistCfg) -> 
         } else {
             Op::GlobalTags
         };
-        situ.push(situation(&mut p));
+        situ.push(situation(p));
         let rec = p.apply(&op);
         let failed = rec.res.is_err();
         ops.push(op);
@@ -118,13 +133,13 @@ pub fn gen_history(c: &Compiled, host: &HostCfg, rng: &mut Rng, h: &HistCfg) -> 
             break;
         }
     }
-    Ok(History {
+    History {
         ops,
-        recs: p.recs.clone(),
+        recs: p.recs[first_rec..].to_vec(),
         final_state: p.full_state(),
         fuel: p.fuel_hit,
         situ,
-    })
+    }
 }
 
 /// Replays `ops` on a fresh story, inserting `extra` after position `at` (None = no perturbation).
